@@ -122,7 +122,7 @@ func hasEmptyID(nl *sbom.NodeList) bool {
 }
 
 func shuffled(g *gen.G, nl *sbom.NodeList) *sbom.NodeList {
-	c := clone(nl)
+	c := cloneListExact(nl)
 	g.R.Shuffle(len(c.Nodes), func(i, j int) { c.Nodes[i], c.Nodes[j] = c.Nodes[j], c.Nodes[i] })
 	g.R.Shuffle(len(c.Edges), func(i, j int) { c.Edges[i], c.Edges[j] = c.Edges[j], c.Edges[i] })
 	for _, e := range c.Edges {
